@@ -26,13 +26,21 @@ impl RefTypes { pub uninterp spec fn names(&self) -> Set<Attribute>; }
 pub struct Schema { pub o: u8 }
 impl Schema { pub uninterp spec fn ref_names(&self) -> Set<Attribute>;
     #[verifier::external_body] pub fn get_reference_types(&self) -> (r: &RefTypes) ensures r.names() == self.ref_names() { unimplemented!() } }
-pub struct Filter { pub o: u8 }
-// `filter_all!(f_or(uuids.into_iter().flat_map(|u| ref_types.values().map(move |r| f_eq(r.name, Refer(u)))).collect()))`:
-// every entry (hidden ones too) holding a reference to one of the uuids — which entries are selected does not matter to the clause
-// proved here (every selected entry is cleaned)
-#[verifier::external_body] pub fn kvx_refs_filter(uuids: Vec<Uuid>, r: &RefTypes) -> (f: Filter) { unimplemented!() }
+// filters: the terms of an OR of equality tests
+pub enum FC { Eq(Attribute, PartialValue) }
+pub fn f_eq(a: Attribute, v: PartialValue) -> (r: FC) ensures r == FC::Eq(a, v) { FC::Eq(a, v) }
+pub struct Filter { pub o: int }
+impl Filter { pub uninterp spec fn terms(&self) -> Set<FC>; }
+// `filter_all!(f_or(uuids.into_iter().flat_map(|u| ref_types.values().map(move |r_type| { f_eq(r_type.name.clone(), PartialValue::Refer(u)) })).collect()))`
+// (inside a macro invocation, so the closures are not visible to the indexer: the redirect matches this exact text, whitespace aside):
+// one equality term per deleted uuid and reference attribute of the schema (std: flat_map / map / collect)
+#[verifier::external_body] pub fn kvx_refs_filter(uuids: Vec<Uuid>, r: &RefTypes) -> (f: Filter)
+    ensures forall|u: Uuid, a: Attribute| uuids@.contains(u) && r.names().contains(a) ==> #[trigger] f.terms().contains(FC::Eq(a, PartialValue::Refer(u))) { unimplemented!() }
+// the same pipeline with an additional `.filter(..)` adapter on the reference attributes (not in the current source): some of the terms
+#[verifier::external_body] pub fn kvx_refs_filter_some(uuids: Vec<Uuid>, r: &RefTypes) -> (f: Filter) { unimplemented!() }
 // an entry: for each attribute, the uuids it refers to (ghost)
 pub struct EntrySealedCommitted { pub o: int }
+impl EntrySealedCommitted { pub uninterp spec fn uuid(&self) -> Uuid; }
 pub struct Arc<T> { pub v: T }
 pub struct EntryInvalidCommitted { pub o: int }
 impl EntryInvalidCommitted {
@@ -47,8 +55,12 @@ impl QueryServerWriteTransaction {
     pub uninterp spec fn schema(&self) -> Schema;
     pub uninterp spec fn applied(&self) -> Seq<(Arc<EntrySealedCommitted>, EntryInvalidCommitted)>;
     #[verifier::external_body] pub fn get_schema(&self) -> (r: &'static Schema) ensures *r == self.schema() { unimplemented!() }
+    // holders(a, u): the uuids of the entries (hidden ones included: filter_all) that refer to u through attribute a
+    pub uninterp spec fn holders(&self, a: Attribute, u: Uuid) -> Set<Uuid>;
+    // a search for an OR of equality terms returns every entry that satisfies one of them (search semantics: C01)
     #[verifier::external_body] pub fn internal_search_writeable(&mut self, f: &Filter) -> (r: Result<Vec<(Arc<EntrySealedCommitted>, EntryInvalidCommitted)>, OperationError>)
-        ensures *final(self) == *old(self) { unimplemented!() }
+        ensures *final(self) == *old(self),
+                r matches Ok(v) ==> forall|a: Attribute, u: Uuid, h: Uuid| f.terms().contains(FC::Eq(a, PartialValue::Refer(u))) && #[trigger] old(self).holders(a, u).contains(h) ==> in_set(v@, h) { unimplemented!() }
     #[verifier::external_body] pub fn internal_apply_writable(&mut self, w: Vec<(Arc<EntrySealedCommitted>, EntryInvalidCommitted)>) -> (r: Result<(), OperationError>)
         ensures final(self).applied() == old(self).applied() + w@ { unimplemented!() }
 }
@@ -60,6 +72,11 @@ pub open spec fn cleaned(e: EntryInvalidCommitted, refnames: Set<Attribute>, rem
 // attributes 0..n of the reference list are cleaned
 pub open spec fn cleaned_upto(e: EntryInvalidCommitted, v: Seq<&SchemaAttribute>, n: int, removed: Seq<Uuid>) -> bool {
     forall|j: int, u: Uuid| 0 <= j < n && removed.contains(u) ==> !(#[trigger] e.refs(v[j].name).contains(u))
+}
+pub open spec fn in_set(v: Seq<(Arc<EntrySealedCommitted>, EntryInvalidCommitted)>, h: Uuid) -> bool { exists|i: int| 0 <= i < v.len() && (#[trigger] v[i]).0.v.uuid() == h }
+// and every entry that holds such a reference IS written back (so none keeps a reference to a deleted entry)
+pub open spec fn all_holders_written(log: Seq<(Arc<EntrySealedCommitted>, EntryInvalidCommitted)>, from: int, qs0: QueryServerWriteTransaction, removed: Seq<Uuid>) -> bool {
+    forall|a: Attribute, u: Uuid, h: Uuid| qs0.schema().ref_names().contains(a) && removed.contains(u) && #[trigger] qs0.holders(a, u).contains(h) ==> in_set(log.subrange(from, log.len() as int), h)
 }
 pub open spec fn log_extends<T>(old_log: Seq<T>, new_log: Seq<T>) -> bool {
     old_log.len() <= new_log.len() && forall|i: int| 0 <= i < old_log.len() ==> #[trigger] new_log[i] == old_log[i]
